@@ -395,6 +395,21 @@ where
         ));
     }
 
+    // Mirror the native `validate_degree_bits`: every extended trace domain must exist for this
+    // PCS and, under ZK, be large enough to be halved. The degree bits are prover-supplied and
+    // are used as shift amounts and to build two-adic domains below, both of which panic when
+    // out of range.
+    let log_max_degree = config.pcs().log_max_lde_height();
+    if let Some(&bad) = degree_bits
+        .iter()
+        .find(|&&ext_db| ext_db < config.is_zk() || ext_db > log_max_degree)
+    {
+        return Err(VerificationError::InvalidProofShape(format!(
+            "degree bits {bad} out of range: expected a value between {} and {log_max_degree}",
+            config.is_zk()
+        )));
+    }
+
     // `common` is consumed by per-instance indexing below (`common.lookups[i]`,
     // `global.instances.instances[i]`, and `matrix_to_instance` lookups). Validate
     // its lengths and bounds up front so malformed/mismatched `CommonData` returns
@@ -721,8 +736,14 @@ where
                         "Extended degree bits smaller than ZK adjustment".to_string(),
                     )
                 })?;
-                let q_domain =
-                    ext_dom.create_disjoint_domain(1 << (base_db + log_qd + config.is_zk()));
+                let log_quotient_size = base_db + log_qd + config.is_zk();
+                if log_quotient_size > log_max_degree {
+                    return Err(VerificationError::InvalidProofShape(format!(
+                        "quotient domain too large: log size {log_quotient_size} exceeds \
+                         {log_max_degree}"
+                    )));
+                }
+                let q_domain = ext_dom.create_disjoint_domain(1 << log_quotient_size);
                 Ok(q_domain.split_domains(1 << (log_qd + config.is_zk())))
             },
         )
